@@ -6,6 +6,8 @@
 slice) and `row = pid,cat,time,fracTime,calls,ideal,idealCyc,fracIdeal,ptUtil`. -/
 import AiuVerif.Basic
 import AiuVerif.Model.Util
+import AiuVerif.Model.LogParse
+import AiuVerif.Model.PhaseName
 import AiuVerif.Drv.C12
 
 namespace AiuVerif.Drv.C11
@@ -52,8 +54,18 @@ def showCRow (r : CRow) : String :=
 
 def listOf (s : String) : List String := if s = "-" then [] else fields s ";"
 
+def encSp (s : String) : String := s.replace " " "%20"
+
+def showTable (t : LogParse.Table) : String :=
+  joinWith "," (t.cycles.map (fun p => encSp p.1 ++ "=" ++ toString p.2)) ++ "|" ++
+  joinWith "," (t.cats.map (fun p => encSp p.1 ++ "=" ++ encSp p.2))
+
 def handle (args : List String) : String :=
   match args with
+  | ["parse", text] =>
+    -- the compiler-log parser on the percent-encoded TEXT of the file -> finished tables (cycles | categories), `#`-joined
+    let st := LogParse.parseText (if text = "%" then [] else (PhaseName.decode text).toList)
+    "n=" ++ toString st.done.length ++ " " ++ (if st.done.isEmpty then "%" else joinWith "#" (st.done.map showTable))
   | [core, stats, rows, evs] =>
     match parseRat? core, parseAll parseRow (listOf rows), parseAll parseEv (listOf evs) with
     | some c, some rs, some es =>
